@@ -961,7 +961,24 @@ func notifClientFacts() {
 		"the start offset is sent on every request after the first batch was received, also when it is -1")
 }
 
+// sequenceFacts: subscribers of a sequence are told a generated key only when the sequence put has produced one
+func sequenceFacts() {
+	f := parse("server/kv/db.go")
+	fn := funcDecl(f, "db", "applyPut")
+	b := ""
+	if fn != nil {
+		b = squash(src(fn.Body))
+	}
+	iPut := strings.Index(b, "batch.Put(putReq.Key, ser)")
+	iUpd := strings.Index(b, "d.sequenceWaiterTracker.SequenceUpdated(")
+	add("sequenceUpdateOnlyOnSuccess", "Bool", boolLean(
+		iPut >= 0 && iUpd > iPut && strings.Count(b, "SequenceUpdated(") == 1 &&
+			strings.Contains(b, "if newKey != \"\" { d.sequenceWaiterTracker.SequenceUpdated(sequencePrefixKey, newKey) }")),
+		"server/kv/db.go: (*db).applyPut", "the only call of SequenceUpdated comes after the record was put into the batch, for a generated key")
+}
+
 func moreFacts() {
+	sequenceFacts()
 	notifClientFacts()
 	indexRegexFacts()
 	newTermSyncFacts()
